@@ -31,6 +31,11 @@ type state struct {
 	ReturnDirectlyToolCallID string
 }
 
+func init() {
+	// the agent's local state is part of a checkpoint when a graph containing the agent is interrupted
+	_ = compose.RegisterSerializableType[state]("_eino_react_state")
+}
+
 const (
 	nodeKeyTools = "tools"
 	nodeKeyModel = "chat"
